@@ -362,6 +362,8 @@ class Run:
     # stage 6 (file-system side): ~8 s, C17 in both tiers, C18 in the thorough tier
     TRANSLATION_TIES.setdefault("C17", []).append("writeproto")
     TRANSLATION_TIES.setdefault("C18", []).append("writeproto@thorough")
+    # stage 7 (more analysis code): mapcheck 6 s
+    for _p in ("C09", "C05"): TRANSLATION_TIES.setdefault(_p, []).append("mapcheck")
 
     def run_translation_ties(self, cov):
         areas = self.TRANSLATION_TIES.get(self.prop)
